@@ -731,8 +731,11 @@ func (c *child) doCell(idx int, cell pktgen.Cell, firstOfRegistry bool) {
 	}
 	// structural hostile inputs: every small index graph (byte mutations never build index cycles)
 	if pktgen.IsIndexGraphPacket(cell) {
+		// quick: all graphs of <= 2 nodes in every protocol and all graphs of <= 3 nodes in the lowest and the highest
+		// protocol that has the packet (the graph code has no protocol gate; a round that makes progress followed by a
+		// round that stalls needs 3 nodes); thorough: <= 3 nodes in every protocol
 		maxNodes := 2
-		if c.r.Thorough() {
+		if c.r.Thorough() || typeEdgeProto[typeEdgeKey(cell)][cell.Protocol] {
 			maxNodes = 3
 		}
 		k := 0
@@ -826,7 +829,27 @@ func (c *child) doCell(idx int, cell pktgen.Cell, firstOfRegistry bool) {
 
 var minProto, maxProto proto.Protocol
 
+// typeEdgeProto: per (state, direction, type) the lowest and the highest protocol in which it is registered
+var typeEdgeProto = map[string]map[proto.Protocol]bool{}
+
+func typeEdgeKey(c pktgen.Cell) string {
+	return fmt.Sprintf("%s/%s/%s", c.State.State, c.Direction, pktgen.TypeName(c.Type))
+}
+
 func initProtoRange(cells []pktgen.Cell) {
+	lo, hi := map[string]proto.Protocol{}, map[string]proto.Protocol{}
+	for _, c := range cells {
+		k := typeEdgeKey(c)
+		if v, ok := lo[k]; !ok || c.Protocol < v {
+			lo[k] = c.Protocol
+		}
+		if v, ok := hi[k]; !ok || c.Protocol > v {
+			hi[k] = c.Protocol
+		}
+	}
+	for k := range lo {
+		typeEdgeProto[k] = map[proto.Protocol]bool{lo[k]: true, hi[k]: true}
+	}
 	for i, c := range cells {
 		if i == 0 || c.Protocol < minProto {
 			minProto = c.Protocol
